@@ -126,6 +126,13 @@ class ApiSession:
             import serial
             raise serial.SerialException("could not open port")
         self.opens = getattr(self, "opens", 0) + 1
+        if str(url).endswith("port2") and self.spec.get("other_device"):
+            # a second receiver, used by another YncaApi object of the same process (its events are tagged)
+            dev2 = make_device(self.spec["other_device"], None)
+            dev2.tag = 2
+            port2 = sched.VSerial(dev2)
+            port2.tag = 2
+            return port2
         first = self.spec.get("first_device")
         self.dev = make_device(first if (first and self.opens == 1) else self.spec.get("device"), None)
         self.port = sched.VSerial(self.dev)
@@ -256,6 +263,24 @@ class ApiSession:
                     pass
                 api.sleep(3.0)
                 api.emit("attempt2")
+            other = None
+            if spec.get("other_device"):
+                # another YncaApi object checks another receiver at the same time: two connections alive in one process
+                b = ynca.YncaApi("virtual://port2", None, 0)
+
+                def other_check():
+                    api.sleep(spec.get("other_delay", 0.0))
+                    ev2 = api.emit("api_call2", op="connection_check")
+                    res2, exc2 = None, None
+                    try:
+                        r2 = b.connection_check()
+                        res2 = {"modelname": r2.modelname, "zones": list(r2.zones)}
+                    except sched.Hang:
+                        raise
+                    except BaseException as e2:  # noqa: BLE001
+                        exc2 = e2
+                    api.emit("api_ret2", call=ev2["seq"], op="connection_check", exc=type(exc2).__name__ if exc2 else None, res=res2)
+                other = api.spawn("U7", other_check)
             ev = api.emit("api_call", op="connection_check")
             exc = None
             res = None
@@ -267,6 +292,8 @@ class ApiSession:
             except BaseException as e:  # noqa: BLE001
                 exc = e
             api.emit("api_ret", call=ev["seq"], op="connection_check", exc=type(exc).__name__ if exc else None, msg=str(exc)[:200] if exc else None, res=res)
+            if other is not None:
+                other.join()
             api.sleep(spec.get("final_wait", 6))
         elif kind == "subunit":
             import ynca.connection as YC
